@@ -136,7 +136,7 @@ def noise(rng, doc):
     if rng.random() < 0.5:
         try:
             from kernpy.core import ExportOptions
-            k = rng.randrange(6)
+            k = rng.randrange(9)
             if k == 0:
                 o = ExportOptions()
                 o.spine_types.discard('**text') if hasattr(o.spine_types, 'discard') else o.spine_types.clear()
@@ -162,6 +162,30 @@ def noise(rng, doc):
                 l.clear()
                 l2 = kp.spine_types(doc, headers=['**kern'])
                 l2.append('**x')
+            elif k == 6:
+                # pitch objects handed out by the public pitch importers
+                from kernpy.core.pitch_models import HumdrumPitchImporter, PitchImporterFactory
+                for spelling in ('c', 'G', 'ee', 'b-', 'f#', 'CC', 'a', 'dd'):
+                    p = HumdrumPitchImporter().import_pitch(spelling)
+                    p.octave = p.octave + 1
+                    q = PitchImporterFactory.create('kern').import_pitch(spelling)
+                    q.name = 'D'
+            elif k == 7:
+                # the category tree through the mapper class itself, positional and keyword calls
+                from kernpy.core.tokens import TokenCategoryHierarchyMapper as HM
+                for c in (TC.CORE, TC.NOTE_REST, TC.SIGNATURES, TC.STRUCTURAL):
+                    for got in (HM.nodes(c), HM.nodes(parent=c), HM.children(c), HM.leaves(c), TC.nodes(c), TC.children(c), TC.leaves(c)):
+                        if hasattr(got, 'clear'):
+                            got.clear()
+            elif k == 8:
+                # questions about things that are not categories are answered (or refused) without being remembered
+                from kernpy.core.tokens import TokenCategoryHierarchyMapper as HM
+                for bad in ('CORE', None, 3, 'nonsense'):
+                    for f in (HM.children, HM.leaves, TC.children, TC.leaves):
+                        try:
+                            f(bad)
+                        except Exception:  # noqa
+                            pass
             else:
                 t = doc.get_all_tokens()
                 t.clear()
